@@ -237,9 +237,9 @@ def parser_model(run):
     lexeme sequence of the family; every input is then parsed by the real parser."""
     # (the input sets are built without unions - TLC's union compares every new element with every old one, which made
     # 19^4 inputs take longer than 40 minutes; measured now, 8 workers: small 3 43 s (1.1 M states), exprB 4 81 s (2.0 M),
-    # exprA 3 45 s (0.8 M), all 3 312 s (8.7 M), small 4 1157 s (30 M))
+    # exprA 3 45 s (0.8 M), all 3 312 s (8.7 M), small 4 1157 s (30 M), exprB 5 947 s (30 M))
     plan = ([("small", 3), ("exprB", 3), ("exprA", 2)] if run.tier == "quick"
-            else [("small", 4), ("all", 3), ("exprB", 4), ("exprA", 3)])
+            else [("small", 4), ("exprB", 5), ("all", 3), ("exprA", 3)])
     sts = run.tlc_many([dict(module="MC_Parser", cfg=PARSER_CFG % (n, ls), name="MC_Parser_%s_%d" % (ls, n), timeout=6000, workers=8)
                         for ls, n in plan], parallel=2)
     for st in sts:
